@@ -429,6 +429,40 @@ def in_list_shape_lane(ctx, rng, select, keys_fn, extra_case=None, profile=None)
     return n
 
 
+def int_vs_decimal_lane(ctx, rng, select, keys_fn, extra_case=None, profile=None):
+    """Integer-typed expressions (functions, columns, integer arithmetic) compared with
+    NON-integral decimal literals that lie right next to values the rows hold, every comparator,
+    both orientations: a translation that converts the literal to the other side's type
+    truncates it."""
+    s_, d_, a_ = T.ident("s"), T.ident("d"), T.ident("a")
+    lefts = [(T.call("length", s_), ["1.5", "2.5", "0.5", "2.0", "1.999"]), (T.call("indexof", s_, T.S("b")), ["0.5", "1.5", "-0.5", "1.0"]),
+             (T.call("year", d_), ["2019.5", "2020.5", "2020.0"]), (T.call("month", d_), ["6.5", "1.5", "12.5"]),
+             (T.call("day", d_), ["1.5", "15.5", "31.5"]), (T.call("hour", d_), ["0.5", "12.5", "23.5"]),
+             (T.call("minute", d_), ["30.5", "59.5"]), (a_, ["0.5", "1.5", "-0.5", "6.999", "7.0"]),
+             (("bin", "add", a_, T.I(1)), ["1.5", "2.5"]), (("bin", "mul", a_, T.I(2)), ["2.5", "-1.5"]),
+             (T.call("length", T.call("concat", s_, T.S("x"))), ["2.5", "3.5"])]
+    n = 0
+    for l, lits in lefts:
+        for v in lits:
+            lit = T.lit("float", v)
+            for op in ("eq", "ne", "lt", "le", "gt", "ge"):
+                for t in (("cmp", op, l, lit), ("cmp", op, lit, l), ("un", "not", ("cmp", op, l, lit))):
+                    if profile is not None and not scalar.conforms(t, profile):
+                        continue
+                    n += 1
+                    if not ctx.mine(n):
+                        continue
+                    ctx.count("int_vs_decimal_filters")
+                    _judge(ctx, t, rng, select, keys_fn, "int-vs-decimal", True, 200, extra_case, profile)
+            t = ("cmp", "in", l, T.lst(lit, T.lit("float", lits[0])))
+            if profile is None or scalar.conforms(t, profile):
+                n += 1
+                if ctx.mine(n):
+                    ctx.count("int_vs_decimal_filters")
+                    _judge(ctx, t, rng, select, keys_fn, "int-vs-decimal", True, 200, extra_case, profile)
+    return n
+
+
 def big_list_lane(ctx, rng, select, keys_fn, n, extra_case=None, profile=None, sizes=(33, 257, 1001, 1500)):
     """Long in-lists as operands of and / or / not / eq, the values that decide the rows
     placed first, last or in the middle of the padding (a translation that chunks, sorts or
